@@ -213,6 +213,54 @@ pub fn build_world(seed: u64, idx: u64, out: &mut RunOut) -> World {
     (g.finish(root), None::<String>)
   };
   let _ = csv_schema;
+  // CSV-oriented worlds: rows of numbers and text, a schema inferred from the rows as the CSV mapping sees
+  // them WITHOUT a header (every row coerced) or WITH one (first row kept as text): the verdict then
+  // depends on --csv-header
+  let csv_oriented = rk.chance(1, 4);
+  let (schema_text, csv_body) = if csv_oriented {
+    let mut body = gen_csv_doc(&mut rw, &dcfg);
+    if let Doc::Array(rows) = &mut body {
+      if rows.is_empty() {
+        rows.push(Doc::Array(vec![Doc::Int(1), Doc::Text("a".into())]));
+      }
+      if rk.coin() {
+        // a first row that looks numeric but is meant as a header
+        let n = match &rows[0] {
+          Doc::Array(f) => f.len().max(1),
+          _ => 1,
+        };
+        rows.insert(0, Doc::Array((0..n).map(|k| if rk.coin() { Doc::Int(k as i128 + 1) } else { Doc::Text(format!("col{}", k)) }).collect()));
+      }
+    }
+    let as_seen = if rk.coin() {
+      // header interpretation: the first row stays text
+      let mut d = body.clone();
+      if let Doc::Array(rows) = &mut d {
+        if let Some(Doc::Array(f)) = rows.first_mut() {
+          for x in f.iter_mut() {
+            let nx = match &*x {
+              Doc::Int(n) => Doc::Text(n.to_string()),
+              Doc::Float(v) => Doc::Text(format!("{:?}", v)),
+              other => other.clone(),
+            };
+            *x = nx;
+          }
+        }
+      }
+      d
+    } else {
+      body.clone()
+    };
+    let mut sc = scfg.clone();
+    sc.hoist = false;
+    let mut g = SchemaGen::new(&mut rw, sc);
+    let root = g.ty(&as_seen, 0);
+    doc = body.clone();
+    out.probe("csv_oriented_world");
+    (g.finish(root), Some(body))
+  } else {
+    (schema_text, None)
+  };
   let ci = rk.chance(1, 2);
   let features = match rk.below(4) {
     0 => None,
@@ -258,7 +306,7 @@ pub fn build_world(seed: u64, idx: u64, out: &mut RunOut) -> World {
     // documents per route
     let mut n_docs = 0;
     for route in ["json", "cbor", "csv"] {
-      let n = rk.weighted(&[4, 4, 3, 1]);
+      let n = if csv_body.is_some() { if route == "csv" { rk.range(1, 3) } else { rk.weighted(&[6, 2, 1, 0]) } } else { rk.weighted(&[4, 4, 3, 1]) };
       for i in 0..n {
         let shown = match rw.below(3) {
           0 => doc.clone(),
@@ -273,7 +321,7 @@ pub fn build_world(seed: u64, idx: u64, out: &mut RunOut) -> World {
             b
           }
           _ => {
-            if rw.coin() {
+            if csv_body.is_none() && rw.coin() {
               to_csv(&gen_csv_doc(&mut rw, &dcfg), &mut rw).into_bytes()
             } else {
               // a CSV rendering of the document when it is an array of rows, else some CSV
@@ -281,8 +329,37 @@ pub fn build_world(seed: u64, idx: u64, out: &mut RunOut) -> World {
             }
           }
         };
-        let (node, state) = match rf.weighted(&[12, 2, 2, 1, 1, 1, 1]) {
-          0 => (Node::File(bytes), "as-generated"),
+        let (node, state) = match rf.weighted(&[12, 2, 2, 1, 1, 1, 1, 3]) {
+          7 if route != "cbor" => {
+            // the same document as real producers frame it: BOM, CRLF line ends, trailing / leading white
+            // space, an embedded NUL - whatever the tool does to the bytes, the library must be given the same
+            let mut b = bytes.clone();
+            match rf.below(6) {
+              0 => {
+                let mut x = vec![0xef, 0xbb, 0xbf];
+                x.extend_from_slice(&b);
+                b = x;
+              }
+              1 => b = String::from_utf8_lossy(&b).replace('\n', "\r\n").into_bytes(),
+              2 => b.extend_from_slice(b"\n\n"),
+              3 => {
+                let mut x = b" \n".to_vec();
+                x.extend_from_slice(&b);
+                b = x;
+              }
+              4 => {
+                let at = rf.below(b.len() + 1);
+                b.insert(at, 0);
+              }
+              _ => {
+                while b.last() == Some(&b'\n') || b.last() == Some(&b'\r') {
+                  b.pop();
+                }
+              }
+            }
+            (Node::File(b), "reframed")
+          }
+          0 | 7 => (Node::File(bytes), "as-generated"),
           1 => (Node::Absent, "missing"),
           2 => {
             let k = if bytes.len() > 1 { rf.range(1, bytes.len() - 1) } else { 0 };
@@ -295,6 +372,7 @@ pub fn build_world(seed: u64, idx: u64, out: &mut RunOut) -> World {
         };
         out.fault(match state {
           "as-generated" => "doc_intact",
+          "reframed" => "doc_reframed_bom_crlf_nul_whitespace",
           "missing" => "doc_missing",
           "truncated" => "doc_truncated",
           "empty" => "doc_empty",
